@@ -304,3 +304,123 @@ pub proof fn witness_f7_free()
         assert(h.take(1) =~= h1);
     }
 }
+
+// ---- COMPOSITION harnesses (link pass 2): the REPLAY half of the step function -------------------------------------------------
+// `step` / `ustep` above are spec-level; that their replay component IS what the arms of SystemState::init do was a hypothesis
+// ("[C05.rp.*], unit alloc_replay", cited by label). Each harness below calls ONE real extracted arm and proves, from its [C05.rp.*]
+// contract, that the pair (replay counter, replayed ids) of the scope the entry addresses goes from b to `rp_create(b, j)` (j = the id
+// field of the journalled command) resp. `rp_delete(b, id)` — by [C05.sim.shape.step_replay] exactly `step((a, b), cmd, carried).1`.
+// The runtime half is proved the same way in units/alloc_runtime/lemmas.rs ([C05.link.alloc_replay.step.*] / [..ustep.*]). Not proved
+// by either half: `Restart` for streams / topics / groups ("the runtime catalogue IS the replayed one, counter back at 1": start-up,
+// units wiring / startup_match) and that both sides resolve a Delete's identifier to the same id (names: C06).
+pub open spec fn rp_delete(b: Alloc, id: u32) -> Alloc { Alloc { c: b.c, ids: b.ids.remove(id) } }
+// label: C05.sim.shape.step_replay
+pub proof fn lemma_step_replay(a: Alloc, b: Alloc, cmd: Cmd, carried: bool)
+    requires acked(a, cmd),
+    ensures
+        cmd matches Cmd::Create(req) ==> step((a, b), cmd, carried).1 == rp_create(b, journalled_id(a, req, carried)),
+        cmd matches Cmd::Delete(id) ==> step((a, b), cmd, carried).1 == rp_delete(b, id),
+        ustep((a, b), UCmd::Create).1 == rp_create(b, None),
+        forall|id: u32| a.ids.contains(id) && id != 1 ==> #[trigger] ustep((a, b), UCmd::Delete(id)).1 == rp_delete(b, id),
+{
+}
+// label: C05.sim.carried.any_counter
+// One step from ANY pair of states whose id sets agree, whatever the two counters are: with the assigned id carried in the journal the
+// id sets agree again. So a refused command that moved the runtime counter (a create_topic(None) refused after the scan, or a scan
+// that ran out: the *.refused clauses of [C05.link.alloc_replay.step.create_*] in unit alloc_runtime) cannot break [C05.sim.carried].
+pub proof fn c05_sim_carried_any_counter(s: (Alloc, Alloc), cmd: Cmd)
+    requires s.0.ids =~= s.1.ids,
+    ensures step(s, cmd, true).0.ids =~= step(s, cmd, true).1.ids,
+{
+}
+pub open spec fn alloc_eq(x: Alloc, y: Alloc) -> bool { x.c == y.c && x.ids =~= y.ids }
+pub open spec fn rp_streams(streams: Map<u32, StreamState>, c: u32) -> Alloc { Alloc { c, ids: streams.dom() } }
+pub open spec fn rp_topics(s: StreamState) -> Alloc { Alloc { c: s.current_topic_id, ids: s.topics@.dom() } }
+pub open spec fn rp_groups(t: TopicState) -> Alloc { Alloc { c: t.current_consumer_group_id, ids: t.consumer_groups@.dom() } }
+pub open spec fn rp_users(users: Map<u32, UserState>, c: u32) -> Alloc { Alloc { c, ids: users.dom() } }
+
+// label: C05.link.alloc_replay.step.rp_init
+pub fn sim_rp_init() -> (r: (HashMap<u32, StreamState>, HashMap<u32, UserState>, u32, u32))
+    ensures alloc_eq(rp_streams(r.0@, r.2), rp0()), alloc_eq(rp_users(r.1@, r.3), rp0()),
+{ rp_init_counters() }
+
+// label: C05.link.alloc_replay.step.rp_create_stream
+pub fn sim_rp_create_stream(streams: HashMap<u32, StreamState>, current_stream_id: u32, command: CreateStream, entry: &StateEntry) -> (r: (HashMap<u32, StreamState>, u32))
+    requires command.stream_id is None ==> current_stream_id < u32::MAX,
+    ensures alloc_eq(rp_create(rp_streams(streams@, current_stream_id), command.stream_id), rp_streams(r.0@, r.1)),
+{ rp_create_stream(streams, current_stream_id, command, entry) }
+
+// (the replay counter is not among the arm's variables: it is the caller's unchanged `c`)
+// label: C05.link.alloc_replay.step.rp_delete_stream
+pub fn sim_rp_delete_stream(streams: HashMap<u32, StreamState>, command: DeleteStream, Ghost(c): Ghost<u32>) -> (r: HashMap<u32, StreamState>)
+    ensures exists|sid: u32| rp_stream_denotes(streams@, &command.stream_id, sid) && alloc_eq(rp_delete(rp_streams(streams@, c), sid), rp_streams(r@, c)),
+{ rp_delete_stream(streams, command) }
+
+// label: C05.link.alloc_replay.step.rp_create_topic
+pub fn sim_rp_create_topic(streams: HashMap<u32, StreamState>, command: CreateTopic, entry: &StateEntry) -> (r: HashMap<u32, StreamState>)
+    requires forall|k: u32| #[trigger] streams@.contains_key(k) ==> streams@[k].current_topic_id < u32::MAX,
+    ensures exists|sid: u32| rp_stream_denotes(streams@, &command.stream_id, sid) && streams@.contains_key(sid) && streams_frame(streams@, r@, sid)
+        && alloc_eq(rp_create(rp_topics(streams@[sid]), command.topic_id), rp_topics(r@[sid])),
+{ rp_create_topic(streams, command, entry) }
+
+// label: C05.link.alloc_replay.step.rp_delete_topic
+pub fn sim_rp_delete_topic(streams: HashMap<u32, StreamState>, command: DeleteTopic) -> (r: HashMap<u32, StreamState>)
+    ensures exists|sid: u32, tid: u32| rp_stream_denotes(streams@, &command.stream_id, sid) && streams@.contains_key(sid)
+        && rp_topic_denotes(streams@[sid].topics@, &command.topic_id, tid) && streams_frame(streams@, r@, sid)
+        && alloc_eq(rp_delete(rp_topics(streams@[sid]), tid), rp_topics(r@[sid])),
+{
+    let r = rp_delete_topic(streams, command);
+    proof {
+        // the witnesses of [C05.rp.topic.delete]
+        let (sid, tid) = choose|sid: u32, tid: u32| rp_stream_denotes(streams@, &command.stream_id, sid) && streams@.contains_key(sid)
+            && rp_topic_denotes(streams@[sid].topics@, &command.topic_id, tid) && streams_frame(streams@, r@, sid)
+            && r@[sid].topics@ =~= streams@[sid].topics@.remove(tid) && r@[sid].current_topic_id == streams@[sid].current_topic_id
+            && r@[sid].id == streams@[sid].id && r@[sid].name == streams@[sid].name;
+        assert(alloc_eq(rp_delete(rp_topics(streams@[sid]), tid), rp_topics(r@[sid])));
+    }
+    r
+}
+
+// label: C05.link.alloc_replay.step.rp_create_consumer_group
+pub fn sim_rp_create_consumer_group(streams: HashMap<u32, StreamState>, command: CreateConsumerGroup) -> (r: HashMap<u32, StreamState>)
+    requires forall|k: u32, t: u32| #[trigger] streams@.contains_key(k) && #[trigger] streams@[k].topics@.contains_key(t) ==> streams@[k].topics@[t].current_consumer_group_id < u32::MAX,
+    ensures exists|sid: u32, tid: u32| rp_stream_denotes(streams@, &command.stream_id, sid) && streams@.contains_key(sid)
+        && rp_topic_denotes(streams@[sid].topics@, &command.topic_id, tid) && streams@[sid].topics@.contains_key(tid)
+        && streams_frame(streams@, r@, sid) && topics_frame(streams@[sid].topics@, r@[sid].topics@, tid)
+        && alloc_eq(rp_create(rp_groups(streams@[sid].topics@[tid]), command.group_id), rp_groups(r@[sid].topics@[tid])),
+{ rp_create_consumer_group(streams, command) }
+
+// label: C05.link.alloc_replay.step.rp_delete_consumer_group
+pub fn sim_rp_delete_consumer_group(streams: HashMap<u32, StreamState>, command: DeleteConsumerGroup) -> (r: HashMap<u32, StreamState>)
+    ensures exists|sid: u32, tid: u32, gid: u32| rp_stream_denotes(streams@, &command.stream_id, sid) && streams@.contains_key(sid)
+        && rp_topic_denotes(streams@[sid].topics@, &command.topic_id, tid) && streams@[sid].topics@.contains_key(tid)
+        && rp_group_denotes(streams@[sid].topics@[tid].consumer_groups@, &command.group_id, gid)
+        && streams_frame(streams@, r@, sid) && topics_frame(streams@[sid].topics@, r@[sid].topics@, tid)
+        && alloc_eq(rp_delete(rp_groups(streams@[sid].topics@[tid]), gid), rp_groups(r@[sid].topics@[tid])),
+{
+    let r = rp_delete_consumer_group(streams, command);
+    proof {
+        // the witnesses of [C05.rp.group.delete]
+        let (sid, tid, gid) = choose|sid: u32, tid: u32, gid: u32| rp_stream_denotes(streams@, &command.stream_id, sid) && streams@.contains_key(sid)
+            && rp_topic_denotes(streams@[sid].topics@, &command.topic_id, tid) && streams@[sid].topics@.contains_key(tid)
+            && rp_group_denotes(streams@[sid].topics@[tid].consumer_groups@, &command.group_id, gid)
+            && streams_frame(streams@, r@, sid) && topics_frame(streams@[sid].topics@, r@[sid].topics@, tid)
+            && r@[sid].current_topic_id == streams@[sid].current_topic_id && r@[sid].id == streams@[sid].id && r@[sid].name == streams@[sid].name
+            && r@[sid].topics@[tid].consumer_groups@ =~= streams@[sid].topics@[tid].consumer_groups@.remove(gid)
+            && r@[sid].topics@[tid].current_consumer_group_id == streams@[sid].topics@[tid].current_consumer_group_id
+            && r@[sid].topics@[tid].id == streams@[sid].topics@[tid].id && r@[sid].topics@[tid].name == streams@[sid].topics@[tid].name;
+        assert(alloc_eq(rp_delete(rp_groups(streams@[sid].topics@[tid]), gid), rp_groups(r@[sid].topics@[tid])));
+    }
+    r
+}
+
+// label: C05.link.alloc_replay.ustep.rp_create_user
+pub fn sim_rp_create_user(users: HashMap<u32, UserState>, current_user_id: u32, command: CreateUser) -> (r: (HashMap<u32, UserState>, u32))
+    requires current_user_id < u32::MAX,
+    ensures alloc_eq(rp_create(rp_users(users@, current_user_id), None), rp_users(r.0@, r.1)),
+{ rp_create_user(users, current_user_id, command) }
+
+// label: C05.link.alloc_replay.ustep.rp_delete_user
+pub fn sim_rp_delete_user(users: HashMap<u32, UserState>, command: DeleteUser, Ghost(c): Ghost<u32>) -> (r: HashMap<u32, UserState>)
+    ensures exists|uid: u32| rp_user_denotes(users@, &command.user_id, uid) && alloc_eq(rp_delete(rp_users(users@, c), uid), rp_users(r@, c)),
+{ rp_delete_user(users, command) }
